@@ -1,5 +1,69 @@
 package c17
 
-import "verif/internal/h"
+import (
+	"verif/internal/gen"
+	"verif/internal/h"
+	"verif/internal/prog"
+	"verif/internal/sdb"
+	"verif/props/c02"
+)
 
-func crashProp(c Case, x *h.Ctx) *h.Violation { return nil }
+// crashProp is the crash leg: the program (with its rejected calls) runs in the child runner under strace and every
+// crash image - in particular those taken after a rejected call - must recover to the model of the acknowledged calls.
+func crashProp(c Case, x *h.Ctx) *h.Violation {
+	x.Label("leg=crash")
+	p := prog.Program{Kind: "db"}
+	for _, k := range c.Keys {
+		if len(k) > 0 {
+			p.Keys = append(p.Keys, k)
+		}
+	}
+	opts := sdb.Opts{MemLimit: c.MemLimit, Threshold: 2, MaxSize: 1 << 40, Ratio: 0.2, WBuf: 4096, RBuf: 4096}
+	se := prog.Session{Opts: opts, Wait: true}
+	rejected := false
+	for i, st := range c.Steps {
+		var key gen.Blob
+		if st.Key < 0 {
+			key = gen.Blob{Nil: true}
+		} else {
+			key = gen.BlobOf(c.Keys[st.Key])
+		}
+		switch st.Op {
+		case "put":
+			val := gen.Blob{Lit: []byte{}}
+			if st.VNil {
+				val = gen.Blob{Nil: true}
+			} else if st.VLen > 0 {
+				val = gen.Blob{Pat: "rand", Len: st.VLen, Seed: uint64(i + 1)}
+			}
+			if st.VNil || st.VLen == 0 || len(key.Bytes()) == 0 {
+				rejected = true
+			}
+			se.Steps = append(se.Steps, prog.Step{Op: "put", RawSet: true, RawKey: key, RawVal: val})
+		case "delete":
+			se.Steps = append(se.Steps, prog.Step{Op: "delete", RawSet: true, RawKey: key})
+		case "get":
+			se.Steps = append(se.Steps, prog.Step{Op: "get", RawSet: true, RawKey: key})
+		case "rotate":
+			se.Steps = append(se.Steps, prog.Step{Op: "rotate"})
+		case "reopen":
+			p.Sessions = append(p.Sessions, se)
+			se = prog.Session{Opts: opts, Wait: true}
+		}
+	}
+	p.Sessions = append(p.Sessions, se)
+	if rejected {
+		x.Label("crash-images-after-a-rejected-call")
+	}
+	cc := c02.Case{Program: p, TraceFile: c.TraceFile, TraceRoot: c.TraceRoot, TraceAck: c.TraceAck, Only: c.Only}
+	v := c02.Execute("C17", cc, x, c02.Judge)
+	if v != nil {
+		if rc, ok := v.ReplayCase.(c02.Case); ok {
+			r := c
+			r.TraceFile, r.TraceRoot, r.TraceAck, r.Only = rc.TraceFile, rc.TraceRoot, rc.TraceAck, rc.Only
+			v.ReplayCase = r
+		}
+		v.Fingerprint = "api/" + v.Fingerprint
+	}
+	return v
+}
